@@ -60,6 +60,12 @@ class CallSet:
         self.fmt_defs = fmt_defs if fmt_defs is not None else {"GT": ("1", "String")}
         self.filters = filters if filters is not None else ["PASS"]
 
+    def contig_idx_of(self):
+        """BCF dictionary index of contig k. Normally k; `contig_perm` (a permutation) makes the IDX= values of the ##contig lines
+        differ from their line order - legal, the IDX value is what records refer to."""
+        perm = getattr(self, "contig_perm", None)
+        return list(perm) if perm and len(perm) == len(self.contigs) else list(range(len(self.contigs)))
+
     # ------------------------------------------------------------------ header
     def header_lines(self, bcf=False):
         L = ["##fileformat=VCFv%s" % self.version]
@@ -70,8 +76,9 @@ class CallSet:
             L.append('##FILTER=<ID=%s,Description="%s"%s>' % (f, desc, ",IDX=%d" % idx if bcf else ""))
             dict_idx[f] = idx
             idx += 1
+        perm = self.contig_idx_of()
         for ci, (name, length) in enumerate(self.contigs):
-            L.append("##contig=<ID=%s,length=%d%s>" % (name, length, ",IDX=%d" % ci if bcf else ""))
+            L.append("##contig=<ID=%s,length=%d%s>" % (name, length, ",IDX=%d" % perm[ci] if bcf else ""))
         for k, (num, typ) in self.info_defs.items():
             if k not in dict_idx:
                 dict_idx[k] = idx
@@ -110,7 +117,11 @@ class CallSet:
             keys = ([] if r.no_gt else ["GT"]) + list(r.extra_fmt.keys())
             cols.append(":".join(keys))
             for si, g in enumerate(r.gts):
-                vals = ([] if r.no_gt else [gt_str(g)]) + [self._fmt_val(r.extra_fmt[k][si]) for k in r.extra_fmt]
+                gs = gt_str(g)
+                if getattr(self, "lead_sep", 0) and len(g[0]) >= 2 and (r.pos * 31 + si) % self.lead_sep == 0:
+                    # VCF 4.4 spelling: a leading separator gives the phase of the first allele (`|0|1`, `/1/1`); same genotype
+                    gs = ("|" if g[1][0] else "/") + gs
+                vals = ([] if r.no_gt else [gs]) + [self._fmt_val(r.extra_fmt[k][si]) for k in r.extra_fmt]
                 # trailing missing fields may be dropped (VCF spec); do so deterministically for odd samples
                 if si % 2 == 1:
                     while len(vals) > 1 and vals[-1] == ".":
@@ -129,7 +140,7 @@ class CallSet:
         lines, dict_idx = self.header_lines(bcf=True)
         text = ("\n".join(lines) + "\n").encode() + b"\0"
         out = [b"BCF\x02\x02", struct.pack("<I", len(text)), text]
-        contig_idx = {name: i for i, (name, _) in enumerate(self.contigs)}
+        contig_idx = {name: self.contig_idx_of()[i] for i, (name, _) in enumerate(self.contigs)}
         for r in self.records:
             out.append(self._bcf_record(r, dict_idx, contig_idx, gt_int16))
         return b"".join(out)
@@ -138,7 +149,7 @@ class CallSet:
         lines, dict_idx = self.header_lines(bcf=True)
         text = ("\n".join(lines) + "\n").encode() + b"\0"
         head = b"BCF\x02\x02" + struct.pack("<I", len(text)) + text
-        contig_idx = {name: i for i, (name, _) in enumerate(self.contigs)}
+        contig_idx = {name: self.contig_idx_of()[i] for i, (name, _) in enumerate(self.contigs)}
         return head, [self._bcf_record(r, dict_idx, contig_idx, gt_int16) for r in self.records]
 
     def _bcf_record(self, r, dict_idx, contig_idx, gt_int16):
@@ -322,6 +333,13 @@ def layouts(data, unit_cuts, rng, kinds=None):
             out[k] = bgzf(data, unit_cuts[::2], empty_blocks=set(rng.sample(range(nb), min(nb, 3))))
         elif k == "double_eof":
             out[k] = bgzf(data, unit_cuts[::4], eof_markers=2)
+        elif k == "no_eof":
+            # no end-of-file marker block at all (a stream that was cut at a block boundary by design, e.g. `bgzip -c` output
+            # concatenated by hand): every data block is complete
+            out[k] = bgzf(data, unit_cuts[::3], eof_markers=0)
+        elif k == "stored_eof":
+            # the final empty block written as a STORED deflate block (legal BGZF, not byte-identical to htslib's 28-byte marker)
+            out[k] = bgzf(data, unit_cuts[::2], eof_markers=0) + bgzf_block(b"", 0)
         elif k == "tiny":
             out[k] = bgzf(data, list(range(7, len(data), 7)))
         elif k == "tinyfirst":
